@@ -413,11 +413,12 @@ PROPS["C08"]["rule"] += (" ; flood engine, one small case of the kinds tokens / 
                          "(response-ip-not-requester-compact-address:flood-peers), every query answered, accepted writes acknowledged")
 
 # maint engine, pass cases (harness/cmd/h/maint_pass.go; model coq/model/Maint.v + RunMaint.v, lemmas coq/proofs/MaintProofs.v): the table maintainer's
-# control flow is inside the model; a C05 / C06 / C14 run executes only the pass cases of the engine (VERIF_PROP)
+# control flow is inside the model; a C05 / C06 / C09 / C14 run executes only the pass cases of the engine (VERIF_PROP)
 _MAINT_PASS = (" ; maint engine, pass cases (model-compared line mpass): ONE pass of the real Server.TableMaintainer over a table prepared through AddNode / answered "
                "Ping / 20 virtual minutes / the failed-ping hook (good, questionable never heard from, questionable with a history, bad; buckets 0..d-1 full, bucket d "
-               "with a free slot / a silent questionable entry / a bad entry / a mix, further entries deeper), on a network answering ping for a chosen set of contacts "
-               "and never find_node; observed from the start of TableMaintainer until its goroutine sits in the pause between passes: the datagrams grouped into "
+               "with a free slot / a silent questionable entry / a bad entry / a mix, further entries deeper; a stale second entry at the address of a good contact whose "
+               "host is silent or answers under its new id; up to 7 contacts answering find_node with an empty list; the application's own Bootstrap first), on a network "
+               "answering ping for a chosen set of contacts; observed from the start of TableMaintainer until its goroutine sits in the pause between passes: the datagrams grouped into "
                "bootstrap / ping round of bucket i / refresh of bucket i (set of destinations each) and the table afterwards (class and failed flag per entry), against "
                "RunMaint.rm_boot / rm_pass = Maint.pass; the snapshot's own good / questionable / bad classification is checked against the model's first")
 PROPS["C06"]["engines"] = PROPS["C06"]["engines"] + ["maint"]
@@ -426,4 +427,7 @@ PROPS["C14"]["engines"] = PROPS["C14"]["engines"] + ["maint"]
 PROPS["C14"]["rule"] += _MAINT_PASS + " (oracles maintainer-pass-does-not-end, maintainer-bootstrap-query-after-the-pass-began)"
 PROPS["C05"]["engines"] = PROPS["C05"]["engines"] + ["maint"]
 PROPS["C05"]["rule"] += _MAINT_PASS + " (oracles entry-moved-or-removed-by-table-maintenance, entry-added-by-table-maintenance-on-a-network-listing-no-nodes, node-count-disagrees-with-table:after-maintenance)"
+PROPS["C09"]["engines"] = PROPS["C09"]["engines"] + ["maint"]
+PROPS["C09"]["rule"] += _MAINT_PASS + (" ; pass cases with a stale entry at the address of a good contact whose host answers pings under its new id: after the pass a find_node "
+                                       "for the stale id must not list it (oracle listed-contact-never-answered-under-that-id:after-maintenance)")
 PROPS["C01"]["rule"] += _MAINT_PASS
